@@ -146,14 +146,16 @@ ScalarAt(fd, b, j, wt) ==
   ELSE IF wt = 5 THEN (IF j + 3 > Len(b) THEN [ok |-> FALSE, n |-> -1, v |-> <<>>] ELSE [ok |-> TRUE, n |-> 4, v |-> CanonFixed(fd.kind, SubSeq(b, j, j + 3))])
   ELSE (IF j + 7 > Len(b) THEN [ok |-> FALSE, n |-> -1, v |-> <<>>] ELSE [ok |-> TRUE, n |-> 8, v |-> CanonFixed(fd.kind, SubSeq(b, j, j + 7))])
 
-RECURSIVE DecFields(_, _, _, _, _, _, _), DecField(_, _, _, _, _, _, _, _, _), DecEntry(_, _, _, _, _, _, _, _, _)
+RECURSIVE DecFields(_, _, _, _, _, _, _), DecField(_, _, _, _, _, _, _, _, _), DecEntry(_, _, _, _, _, _, _, _, _),
+          DecMset(_, _, _, _, _, _), DecItem(_, _, _, _)
 
 \* Decode the fields of a message of type t from b[i..], merging into m.
 \*   grp = 0: the message extends to the end of b;  grp = n: until the end-group tag of field n.
 \*   d = nesting levels still available *below* this message;  o = [discard |-> BOOLEAN].
 \* Result [ok, m, j]: j is the index just after the consumed region.
 DecFields(t, b, i, grp, m, d, o) ==
-  IF i > Len(b) THEN (IF grp = 0 THEN Ok(m, i) ELSE Bad(m))
+  IF Schema[t].mset /\ grp = 0 THEN DecMset(t, b, i, m, d, o)
+  ELSE IF i > Len(b) THEN (IF grp = 0 THEN Ok(m, i) ELSE Bad(m))
   ELSE LET tg == TagAt(b, i) IN
        IF tg.n < 0 \/ tg.num > MaxValidNumber THEN Bad(m)
        ELSE IF tg.wt = 4 THEN (IF grp # 0 /\ tg.num = grp THEN Ok(m, i + tg.n) ELSE Bad(m))
@@ -231,6 +233,45 @@ DecEntry(kf, vf, b, i, k, v, d, o, m0) ==
                 IF sc.ok THEN DecEntry(kf, vf, b, j + sc.n, k, [s |-> sc.v], d, o, m0)
                 ELSE IF sc.n < 0 THEN [ok |-> FALSE, k |-> k, v |-> v] ELSE skip)
             ELSE skip
+
+\* ---- MessageSet wire format (legacy builds): the message is a sequence of items
+\*        group 1 { type_id = 2 (varint) ; message = 3 (bytes) }
+\* An item's type id is the last type_id in it (1 .. 2^31-1, else error), its payload the concatenation of all its message
+\* fields (either order); an item without type id is dropped; other fields inside an item and outside items are skipped.
+\* An item whose type id is a known message extension is merged into that extension, otherwise it is kept as the unknown
+\* length-delimited field <type id>.
+\* DecItem: [ok, tid, msg, j] for the item body starting at b[i] (after the start-group tag)
+DecItem(b, i, tid, msg) ==
+  LET tg == TagAt(b, i) IN
+  IF tg.n < 0 THEN [ok |-> FALSE, tid |-> 0, msg |-> <<>>, j |-> 0]
+  ELSE LET j == i + tg.n IN
+       IF tg.num = 1 /\ tg.wt = 4 THEN [ok |-> TRUE, tid |-> tid, msg |-> msg, j |-> j]
+       ELSE IF tg.num = 2 /\ tg.wt = 0 THEN
+            (LET v == DecVarint(b, j)  x == ToNat(v.v) IN
+             IF v.n < 0 \/ x < 1 THEN [ok |-> FALSE, tid |-> 0, msg |-> <<>>, j |-> 0]
+             ELSE DecItem(b, j + v.n, x, msg))
+       ELSE IF tg.num = 3 /\ tg.wt = 2 THEN
+            (LET p == BytesAt(b, j) IN
+             IF p.n < 0 THEN [ok |-> FALSE, tid |-> 0, msg |-> <<>>, j |-> 0] ELSE DecItem(b, j + p.n, tid, msg \o p.p))
+       ELSE LET n == FieldValueLen(b, j, tg.num, tg.wt, 10000) IN
+            IF n < 0 THEN [ok |-> FALSE, tid |-> 0, msg |-> <<>>, j |-> 0] ELSE DecItem(b, j + n, tid, msg)
+DecMset(t, b, i, m, d, o) ==
+  IF i > Len(b) THEN Ok(m, i)
+  ELSE LET tg == TagAt(b, i) IN
+       IF tg.n < 0 THEN Bad(m)
+       ELSE LET j == i + tg.n IN
+            IF ~(tg.num = 1 /\ tg.wt = 3) THEN
+               (LET n == FieldValueLen(b, j, tg.num, tg.wt, 10000) IN IF n < 0 THEN Bad(m) ELSE DecMset(t, b, j + n, m, d, o))
+            ELSE LET it == DecItem(b, j, 0, <<>>) IN
+                 IF ~it.ok THEN Bad(m)
+                 ELSE IF it.tid = 0 THEN DecMset(t, b, it.j, m, d, o)
+                 ELSE LET fd == FieldOf(t, it.tid) IN
+                      IF fd.kind = "message" /\ fd.card # "rep" THEN
+                         (IF d < 1 THEN Bad(m)
+                          ELSE LET base == IF Has(m, it.tid) THEN Get(m, it.tid).m ELSE EmptyMsg
+                                   sub == DecFields(fd.msg, it.msg, 1, 0, base, d - 1, o)
+                               IN IF ~sub.ok THEN Bad(m) ELSE DecMset(t, b, it.j, Put(m, it.tid, [m |-> sub.m]), d, o))
+                      ELSE DecMset(t, b, it.j, IF o.discard THEN m ELSE AddU(m, it.tid, 2, EncBytes(it.msg)), d, o)
 
 \* Decode(t, b, m0, limit, discard): top level; limit = RecursionLimit (levels of messages incl. the top one)
 Decode(t, b, m0, limit, discard) ==
@@ -361,5 +402,15 @@ EncField(fd, v) ==
         ELSE EncList(fd, v.l, 1))
   ELSE EncSingle(fd, v)
 EncFields(t, fs, i) == IF i > Len(fs) THEN <<>> ELSE EncField(FieldOf(t, fs[i][1]), fs[i][2]) \o EncFields(t, fs, i + 1)
-Encode(t, m) == EncFields(t, m.f, 1) \o RawU(m.u, 1)
+\* MessageSet: every (message) extension and every unknown length-delimited record becomes an item
+RECURSIVE EncMsetFields(_, _, _), EncMsetU(_, _)
+MsetItem(tid, payload) == EncTag(1, 3) \o EncTag(2, 0) \o EncVarint(FromNat8(tid)) \o EncTag(3, 2) \o EncBytes(payload) \o EncTag(1, 4)
+EncMsetFields(t, fs, i) ==
+  IF i > Len(fs) THEN <<>>
+  ELSE MsetItem(fs[i][1], Encode(FieldOf(t, fs[i][1]).msg, fs[i][2].m)) \o EncMsetFields(t, fs, i + 1)
+EncMsetU(u, i) ==
+  IF i > Len(u) THEN <<>>
+  ELSE (IF u[i][2] = 2 THEN MsetItem(u[i][1], BytesAt(u[i][3], 1).p) ELSE <<>>) \o EncMsetU(u, i + 1)
+Encode(t, m) == IF Schema[t].mset THEN EncMsetFields(t, m.f, 1) \o EncMsetU(m.u, 1)
+                ELSE EncFields(t, m.f, 1) \o RawU(m.u, 1)
 =============================================================================
